@@ -191,6 +191,10 @@ def make_classes():
         def __hash__(self) -> int:
             return hash(type(self).__name__)
 
+        # ... and may be containers (a frame-stack wrapper with `__len__`): every second leaf is falsy
+        def __bool__(self) -> bool:
+            return getattr(self, "_lid", 0) % 2 == 0
+
         def setup(self):
             self._rec.ev("setup", self._lid)
             super().setup()
